@@ -212,7 +212,7 @@ def sampled_case(draw):
     return case
 
 
-PARAMS = {"quick": {"sampled": 250}, "thorough": {"sampled": 15000}}
+PARAMS = {"quick": {"sampled": 800}, "thorough": {"sampled": 15000}}
 
 
 def shard(ctx):
